@@ -15,7 +15,10 @@ def run(ctx):
         sync_misc.portfolio_sync(c, corr, tr, ix)
         for op in tr.rec.pf_ops:
             c.nontrivial(op["op"], op["args"].get("account"), op["args"].get("days"), op["raised"])
-    tstream.stream(ctx, ctx.n(50, 2500), None, [monitors.c03_monitor], extra_sync=extra, cfg_opts=lambda k: {"p_init_pos": 0.2})
+    tstream.stream(ctx, ctx.n(50, 2500), None, [monitors.c03_monitor], extra_sync=extra,
+                   # every other run: dense corporate actions (a split and a cash dividend sharing the ex-date) on holdings that exist from the first day
+                   market_opts=lambda k: ({"opts": {"p_div": 0.8, "p_split": 0.6, "p_same_ex": 0.7}} if k % 2 else {}),
+                   cfg_opts=lambda k: {"p_init_pos": 0.5 if k % 2 else 0.2})
 
 
 def replay(ctx, data):
